@@ -77,7 +77,7 @@ static int usability_cycle(const pt_t *p, rng_t *rng)
 	for (uint32_t i = 0; i < lose; i++) lost[i == 0 ? rng_below(rng, k) : rng_below(rng, n)] = 1;
 	for (uint32_t e = 0; e < n; e++) if (!lost[e]) sub[m++] = e;
 	for (uint32_t i = m; i > 1; i--) { uint32_t j = rng_below(rng, i); uint32_t t = sub[i - 1]; sub[i - 1] = sub[j]; sub[j] = t; }
-	hist_t h = { (int)(rng_below(rng, 2)), 1, 0, 0, 0, m, sub, n <= 300 ? 1 : (int)(n / 20) };
+	hist_t h = { (int)(rng_below(rng, 2)), 1, 0, p->role == 3 ? 3 : 0, 0, m, sub, n <= 300 ? 1 : (int)(n / 20), 0, 1 };
 	hres_t res; g_prop = "C01";          /* wrong symbols are reported by the C01 monitor keys; converted below */
 	uint64_t before = g_viol_total;
 	run_history(&b, &h, MON_C01, &res);
@@ -90,7 +90,7 @@ static int usability_cycle(const pt_t *p, rng_t *rng)
 		if (c.codec != 3) ret = 2;
 		else {
 			for (uint32_t e = 0; e < n; e++) sub[e] = e;
-			hist_t h2 = { 0, 1, 0, 0, 0, n, sub, n <= 300 ? 1 : (int)(n / 20) };
+			hist_t h2 = { 0, 1, 0, p->role == 3 ? 3 : 0, 0, n, sub, n <= 300 ? 1 : (int)(n / 20), 0, 0 };
 			g_prop = "C01"; before = g_viol_total; run_history(&b, &h2, MON_C01, &res); g_prop = sv;
 			if (g_viol_total != before) ret = 3; else if (!res.complete) ret = 2;
 		}
@@ -155,7 +155,7 @@ static void point(const pt_t *p, rng_t *rng)
 	g_pts++;
 	/* usability cycle only inside the limits and with sizes that can be exercised */
 	int big = p->L > 70000 || (p->k + p->r) * p->L > (64u << 20);
-	int want_cycle = !nv && !big && p->role != OF_ENCODER;   /* the cycle uses its own encoder and decoder sessions */
+	int want_cycle = !nv && !big && p->role != OF_ENCODER;   /* the cycle uses its own encoder session; role 'both': the decoding instance is an encoder+decoder that re-encodes afterwards */
 	int in_child = nv || big || (p->k + p->r) > 2000 || p->L > 4096;
 	int sig = 0; char key[200];
 	rng_t rng_copy = *rng;
